@@ -137,7 +137,11 @@ func (g *c16Gen) cmd(c *Cmd, depth int) {
 		}
 	}
 	if depth < 2 && rapid.IntRange(0, 9).Draw(t, "hasCmds") < 7 {
-		for i := rapid.IntRange(1, 3).Draw(t, "ncmds"); i > 0; i-- {
+		ncmds := rapid.IntRange(1, 3).Draw(t, "ncmds")
+		if rapid.IntRange(0, 4).Draw(t, "manyCmds") == 0 {
+			ncmds = rapid.IntRange(4, 9).Draw(t, "manyCmdsN")
+		}
+		for i := ncmds; i > 0; i-- {
 			g.n++
 			sc := Cmd{ID: fmt.Sprintf("c%d", g.n), Field: fmt.Sprintf("C%d", g.n), Name: "cmd" + g.mk() + rapid.SampledFrom([]string{"", "", "é", "éß", "größe", "日本"}).Draw(t, "cmdSuffix"), ByTag: c.ByTag || rapid.Bool().Draw(t, "byTag")}
 			if rapid.IntRange(0, 9).Draw(t, "cmdDesc") < 7 {
